@@ -81,7 +81,7 @@ def jOp (o : Op) : Option Json :=
 
 def showContent (p : Bytes) : Bool :=
   let b := pathBase p
-  hasPrefix b b!"layerconfig" || hasPrefix b b!"data"
+  hasPrefix b b!"layerconfig" || hasPrefix b b!"data" || hasSuffix b b!".skel"
 
 def vb : Bytes := b!"/VB"
 
